@@ -84,6 +84,10 @@ def fork_exec(fn, arg, timeout=300.0, keep_output=False):
         try:
             os.close(r)
             signal.signal(signal.SIGINT, signal.SIG_IGN)
+            try:    # executions may start real process pools; pool workers of *this* harness are daemonic
+                mp.current_process()._config['daemon'] = False
+            except Exception:  # noqa
+                pass
             os.environ['TMPDIR'] = work
             tempfile.tempdir = work
             os.chdir(work)
